@@ -92,7 +92,11 @@ class MigWorld(World):
     def op_restart_new(self, s):
         if self.phase != "new" or self.ds is None:
             return {"skipped": "no new store"}
-        self.close(clean=True)
+        if s.get("dirty"):
+            self.probes["new_store_exit_without_shutdown"] += 1
+            self._release()
+        else:
+            self.close(clean=True)
         out = self._call(self.open_new)
         if out["exc"] is None:
             self.new_dump = self.dump()
@@ -121,7 +125,7 @@ class C14(Check):
         "under the same bucket ids; then first start and a restart of the default SqliteStorage in the same fake home; "
         "non-trivial = legacy store held >=1 bucket with >=1 event; distinct = (profile, op-kind sequence, events per bucket)"
     )
-    expected_probes = ["legacy_events_migrated", "legacy_bucket_with_data", "legacy_bucket_name_omitted", "distractor_profile_present", "legacy_exit_dirty", "id_holes", "profile_testing", "profile_normal", "unicode_bucket_id", "restart_new_checked", "legacy_bucket_over_1000_events", "legacy_negative_duration"]
+    expected_probes = ["legacy_events_migrated", "legacy_bucket_with_data", "legacy_bucket_name_omitted", "distractor_profile_present", "legacy_exit_dirty", "id_holes", "profile_testing", "profile_normal", "unicode_bucket_id", "restart_new_checked", "legacy_bucket_over_1000_events", "legacy_negative_duration", "new_store_exit_without_shutdown", "bucket_ids_differ_in_case"]
     assumptions = ["the data directory is found through XDG_DATA_HOME (platformdirs); the harness asserts every database path lies inside the run's scratch home"]
     real_components = ["PeeweeStorage (legacy store at default path)", "SqliteStorage (new store at default path)", "aw_datastore.migration", "aw_core.dirs / platformdirs", "SQLite engine", "peewee ORM"]
     stub_components = ["home directory (XDG_* in scratch)", "loggers", "the legacy client (generated history)"]
@@ -168,7 +172,9 @@ class C14(Check):
             b = nr.choice(buckets)
             steps.append({"op": "insertN", "b": b, "evs": [{"ev": {"ts": gen.lat_ts(nr, lat), "off": 0, "dur": -nr.choice([1, 1000, 1_500_000, 60_000_000]), "data": {"neg": True}}} for _ in range(nr.randrange(1, 4))]})
         steps.append({"op": "first_start", "dirty": r.random() < 0.3})
-        steps.append({"op": "restart_new"})
+        # the library has no shutdown call: a process that migrated, served reads and exited without ceremony
+        # is the ordinary lifecycle, so half of the restarts abandon the connection instead of flushing it
+        steps.append({"op": "restart_new", "dirty": r.random() < 0.5})
         return {"backend": "peewee-to-sqlite", "profile": profile, "steps": steps, "lat": lat}
 
     def start(self, world, run):
@@ -212,6 +218,8 @@ class C14(Check):
                 pr["id_holes"] += 1
             if any(ord(ch) > 127 for ch in b):
                 pr["unicode_bucket_id"] += 1
+            if any(o != b and o.lower() == b.lower() for o in want):
+                pr["bucket_ids_differ_in_case"] += 1
         self._shape = sorted((b, len(v["events"])) for b, v in want.items())
         for prof, h in world.legacy_hash.items():
             p = world.legacy_path(prof)
